@@ -595,20 +595,32 @@ func recordBoundToUser(c *km.Ctx, s *km.Sem, at ssa.Instruction, rec ssa.Value, 
 	if st == nil {
 		return true
 	}
-	return st.All(func(k km.Conj) bool {
-		for _, f := range k.List() {
-			if f.Op != token.EQL {
+	// record.Username == authUser, compared here or inside a method the record was handed to (startedBy(user))
+	bound := km.Prim{Name: "record.Username == authUser", Rel: func(f km.Fact, resolve func(ssa.Value) ssa.Value) bool {
+		if f.Op != token.EQL {
+			return false
+		}
+		for _, pair := range [][2]ssa.Value{{f.X, f.Y}, {f.Y, f.X}} {
+			b, fld, ok := km.FieldOfLoad(km.Unwrap(pair[0]))
+			if !ok || fld != "Username" {
 				continue
 			}
-			for _, pair := range [][2]ssa.Value{{f.X, f.Y}, {f.Y, f.X}} {
-				b, fld, ok := km.FieldOfLoad(pair[0])
-				if ok && fld == "Username" && b == rec && isAuthUser(pair[1]) {
-					return true
+			base := resolve(b)
+			// a value receiver is spilled to a local cell inside the method: the cell's single store
+			if a, isA := km.Unwrap(b).(*ssa.Alloc); isA {
+				for _, ref := range *a.Referrers() {
+					if st, isSt := ref.(*ssa.Store); isSt && st.Addr == ssa.Value(a) {
+						base = resolve(st.Val)
+					}
 				}
+			}
+			if (b == rec || base == rec || base == km.Unwrap(rec) || cellOrigin(base) == cellOrigin(rec)) && (isAuthUser(pair[1]) || isAuthUser(resolve(pair[1]))) {
+				return true
 			}
 		}
 		return false
-	})
+	}}
+	return st.All(func(k km.Conj) bool { return s.Holds(k, bound) })
 }
 
 func checkOneTime(c *km.Ctx, s *km.Sem, upd *ssa.Function, isAuthUser func(ssa.Value) bool) {
@@ -846,4 +858,36 @@ func checkPushRecords(c *km.Ctx) {
 	if n == 0 {
 		r.AnchorLost("R-C05-2", "stores into the pending VIP push table")
 	}
+}
+
+// cellOrigin: the value a local variable cell holds when it is stored exactly once (a struct kept in a variable
+// so that a value-receiver method can be called on it is the value that was stored).
+func cellOrigin(v ssa.Value) ssa.Value {
+	v = km.Unwrap(v)
+	for i := 0; i < 4; i++ {
+		var cell *ssa.Alloc
+		switch x := v.(type) {
+		case *ssa.Alloc:
+			cell = x
+		case *ssa.UnOp:
+			if a, ok := x.X.(*ssa.Alloc); ok && x.Op == token.MUL {
+				cell = a
+			}
+		}
+		if cell == nil {
+			return v
+		}
+		var stored ssa.Value
+		n := 0
+		for _, ref := range *cell.Referrers() {
+			if st, ok := ref.(*ssa.Store); ok && st.Addr == ssa.Value(cell) {
+				stored, n = st.Val, n+1
+			}
+		}
+		if n != 1 {
+			return v
+		}
+		v = km.Unwrap(stored)
+	}
+	return v
 }
